@@ -232,8 +232,9 @@ class PopenExecutor(concurrent.futures.Executor):
 
         # submitting new futures after join() would be bad,
         # so we make this internal and only call it from shutdown()
-        with contextlib.suppress(concurrent.futures.CancelledError):
-            for future in list(self._futures):
+        for future in list(self._futures):
+            # wait for every future, whatever the outcome of the others
+            with contextlib.suppress(Exception):
                 future.result()
 
 
